@@ -230,6 +230,44 @@ def check_sfloat():
                     FAIL.append(("sfloat", "np." + nm, k, a, got, want))
 
 
+def check_to_bytes():
+    for v in (0, 1, 255, 256, 0x01020304, 0xFFFFFFFF, 0x100000000, -1, -129, 0x7FFFFFFFFF):
+        for n in (1, 4, 5):
+            for order in ("little", "big"):
+                for signed in (False, True):
+                    COUNT["snp"] += 1
+                    try:
+                        want = list(v.to_bytes(n, order, signed=signed))
+                    except OverflowError:
+                        want = "OverflowError"
+                    try:
+                        got = [int(z3.simplify(b.bv).as_signed_long()) for b in npint.SBig.of(v).to_bytes(n, order, signed=signed)]
+                    except OverflowError:
+                        got = "OverflowError"
+                    if got != want:
+                        FAIL.append(("sbig", "to_bytes", v, n, order, signed, got, want))
+
+
+def check_srat():
+    """exact rationals: floor / ceil / trunc / round (ties to even) of int/int quotients against CPython's Fraction arithmetic"""
+    import math
+    from fractions import Fraction
+
+    from symx import rat
+
+    for num in list(range(-9, 10)) + [32767, 32768, 98304, 163840, -98304, 1073741824 + 32768, 3 * 65536 + 32768]:
+        for den in (1, 2, 4, 3, 65536):
+            x = SInt(z3.IntVal(num)) / den
+            if not isinstance(x, rat.SRat):
+                continue
+            fr = Fraction(num, den)
+            for nm, got, want in (("floor", math.floor(x), math.floor(fr)), ("ceil", math.ceil(x), math.ceil(fr)), ("trunc", math.trunc(x), math.trunc(fr)),
+                                  ("round", round(x), round(fr))):
+                COUNT["srat"] = COUNT.get("srat", 0) + 1
+                if _val(core.L(got)) != want:
+                    FAIL.append(("srat", nm, num, den, _val(core.L(got)), want))
+
+
 def check_struct():
     """the struct.pack('<nI') model of harness/c17.py against the real struct (both byte orders, out-of-range words)"""
     from harness import c17
@@ -272,6 +310,8 @@ def check_absint():
 
 def main():
     check_struct()
+    check_srat()
+    check_to_bytes()
     check_absint()
     check_sint()
     check_snp()
